@@ -180,7 +180,7 @@ pub fn check(s: &'static dyn Proto, c: &Case, st: &mut Stats, _k: &KnownFindings
 }
 
 pub const BUDGET: Budget = Budget {
-    quick: (200, 80, 30),
+    quick: (400, 160, 48),
     thorough: (2000, 600, 200),
     shrink: 200,
 };
